@@ -159,6 +159,11 @@ struct EW {
     ghost_links: Vec<LinkId>,
 }
 
+fn fresh_id(spare: &mut std::collections::VecDeque<ClockId>) -> ClockId {
+    let id = if spare.len() % 2 == 0 { spare.pop_back() } else { spare.pop_front() };
+    id.unwrap_or_else(ClockId::new)
+}
+
 fn run_est(ops: &[EOp]) -> Result<Outcome, Outcome> {
     let mut labels = Labels::default();
     labels.add("est");
@@ -173,6 +178,9 @@ fn run_est(ops: &[EOp]) -> Result<Outcome, Outcome> {
         let (a, b) = (ClockId::new(), ClockId::new());
         w.ghost_links.push(LinkId::new(a, b).unwrap());
     }
+    // clock ids are opaque: they need not be registered in the order they were created. A pool created up front
+    // is handed out from alternating ends, so registration order and id order differ
+    let mut spare: std::collections::VecDeque<ClockId> = (0..12).map(|_| ClockId::new()).collect();
     let mut compared = 0u32;
     let mut measured = false;
     for op in ops {
@@ -183,7 +191,7 @@ fn run_est(ops: &[EOp]) -> Result<Outcome, Outcome> {
                 if w.clocks.len() >= 7 {
                     continue;
                 }
-                let id = ClockId::new();
+                let id = fresh_id(&mut spare);
                 let (o, f) = (hk::UncertainValue { value: off.f(), uncertainty: off_unc.f() }, hk::UncertainValue { value: freq.f(), uncertainty: freq_unc.f() });
                 match w.e.clone().add_clock(id, o, f, wander.f()) {
                     Ok(n) => {
@@ -209,7 +217,7 @@ fn run_est(ops: &[EOp]) -> Result<Outcome, Outcome> {
                 if w.clocks.len() >= 7 {
                     continue;
                 }
-                let id = ClockId::new();
+                let id = fresh_id(&mut spare);
                 match w.e.clone().add_external_clock(id) {
                     Ok(n) => {
                         let after = snapshot(&n).map_err(|m| Outcome::fail("snapshot-failed", m))?;
